@@ -88,7 +88,7 @@ def candidates(case):
                              ('verbose', False), ('forever', False),
                              ('critical', False), ('sd_timeout', 1.0),
                              ('build', 'ctor'), ('late_attrs', None),
-                             ('watch', None),
+                             ('watch', None), ('label', 'x'),
                              ('ctor_attrs', None)):
             if sched.get(key) != neutral:
                 new = variant()
@@ -107,6 +107,7 @@ def candidates(case):
             for key, neutral in (('cleanup', []), ('handler', []),
                                  ('cleanup_outcome', None),
                                  ('exc_noargs', None), ('exc_base', None),
+                                 ('exc_type', None), ('label', 'x'),
                                  ('handler_absorbs', None),
                                  ('forever', False), ('critical', False),
                                  ('outcome', 'ret'), ('cls', 'abstract')):
@@ -163,6 +164,14 @@ def valid(prop, case):
             if S.is_sched(node) and node['members'] and \
                     all(m['forever'] for m in node['members']):
                 return False
+    # a self-cancelling job must not be required by anybody
+    for node, _, _ in S.walk(top):
+        if S.is_sched(node):
+            required = {a for a, _ in node['edges']}
+            for i, m in enumerate(node['members']):
+                if not S.is_sched(m) and m['outcome'] == 'self_cancel' \
+                        and i in required:
+                    return False
     # aux references must still exist
     nodes, _ = S.index(top)
     for key in ('switch', 'target'):
